@@ -277,6 +277,15 @@ def check(tier, seed):
         seen_labels = {}
         for fname, label, body in bodies:
             seen_labels[label] = seen_labels.get(label, 0) + 1
+        # a Fortran procedure binds the C symbol of ITS OWN name (the *_passthrough helpers bind the name without that suffix): an interface bound
+        # to another symbol of the same signature compiles, links and type-checks, and calls the wrong function
+        for fname, label, body in bodies:
+            nobs += 1
+            want = re.sub(r"_passthrough$", "", fname, flags=re.I)
+            if label != want and label.lower() != want.lower():
+                viol("fortran-interface-bound-to-another-symbol:" + fname, "masa.f90: procedure %s is bound to the C symbol '%s' (expected '%s')" % (fname, label, want))
+            elif seen_labels[label] > 1:
+                viol("fortran-label-bound-twice:" + label, "masa.f90: %d interfaces bind the C symbol '%s'" % (seen_labels[label], label))
         for k, (fname, label, body) in enumerate(bodies):
             if label in protos and seen_labels[label] == 1:
                 continue
